@@ -213,6 +213,68 @@ pub fn run_scaled(ctx: &mut Ctx, n_model: usize, n_big: usize, exhaustive_subset
         items.push(Item { case, originals, given: go });
     }
 
+    // (e) thousands of originals and 2 .. 8 recovery shards (the everyday storage shape): few erasures among very many
+    //     work positions — every position is one evaluation point of the erasure locator
+    for n in 0..(n_big / 8).max(3) {
+        let k = ctx.rng.range(3000, 60000);
+        let r = ctx.rng.range(2, 8);
+        let kind = *ctx.rng.pick(&["high", "default", "rs"]);
+        let engine = if kind == "rs" { "default" } else { *ctx.rng.pick(&["nosimd", "ssse3", "avx2", "default"]) };
+        let cfg = Cfg { kind: kind.into(), engine: engine.into(), k, r, sb: 2 };
+        let originals = gen_originals(&mut ctx.rng, cfg.k, cfg.sb);
+        let Some(recovery) = encode_impl(&cfg, &originals) else {
+            let c = Case::new("many-originals-encode");
+            ctx.oracle_fail(format!("encode failed for supported {}", cfg.tag()), &c, None);
+            continue;
+        };
+        let lost = ctx.rng.range(if n % 2 == 0 { r } else { 1 }, r);
+        let miss = ctx.rng.subset(k, lost);
+        let go: Vec<usize> = (0..k).filter(|i| !miss.contains(i)).collect();
+        let gr = ctx.rng.subset(r, lost);
+        let order: Vec<(bool, usize)> =
+            go.iter().map(|i| (true, *i)).chain(gr.iter().map(|i| (false, *i))).collect();
+        ctx.count("loss_pattern", "many-originals+few-recovery");
+        ctx.count("kind", &cfg.kind);
+        ctx.count("work_class", "<=65536");
+        let mut case = roundtrip_case(&format!("many-originals-{}", n), &cfg, &cfg, &originals, &recovery, &order);
+        case.with_model = false;
+        items.push(Item { case, originals, given: go });
+    }
+
+    // (f) the decoder object had a LARGER configuration before (one full round there, then `reset`): whatever the
+    //     working space and the received-bitmap keep from it must not matter
+    for n in 0..(n_model / 4).max(30) {
+        let max_work = *ctx.rng.pick(&[16usize, 32, 64]);
+        let cfg = gen_cfg(&mut ctx.rng, max_work, &kinds, &ENGINES, &SMALL_SIZES);
+        let mut bigger = gen_cfg(&mut ctx.rng, max_work * 4, &[cfg.kind.as_str()], &[cfg.engine.as_str()], &SMALL_SIZES);
+        for _ in 0..20 {
+            if dec_work(&bigger.kind, bigger.k, bigger.r) > dec_work(&cfg.kind, cfg.k, cfg.r) { break; }
+            bigger = gen_cfg(&mut ctx.rng, max_work * 4, &[cfg.kind.as_str()], &[cfg.engine.as_str()], &SMALL_SIZES);
+        }
+        let originals = gen_originals(&mut ctx.rng, cfg.k, cfg.sb);
+        let Some(recovery) = encode_impl(&cfg, &originals) else { continue };
+        let (go, gr, pat) = gen_received(&mut ctx.rng, cfg.k, cfg.r);
+        let mut order: Vec<(bool, usize)> =
+            go.iter().map(|i| (true, *i)).chain(gr.iter().map(|i| (false, *i))).collect();
+        ctx.rng.shuffle(&mut order);
+        let mut c = Case::new(&format!("after-larger-{}", n));
+        c.push(bigger.new_line("D"));
+        if ctx.rng.chance(2, 3) {
+            // one successful round in the larger configuration: every original given
+            let bo = gen_originals(&mut ctx.rng, bigger.k, bigger.sb);
+            for (i, o) in bo.iter().enumerate() { c.push(format!("D addo {} {}", i, to_hex(o))); }
+            c.push("D decode".into());
+        }
+        c.push(format!("D reset {} {} {}", cfg.k, cfg.r, cfg.sb));
+        for (is_o, i) in order.iter() {
+            if *is_o { c.push(format!("D addo {} {}", i, to_hex(&originals[*i]))); } else { c.push(format!("D addr {} {}", i, to_hex(&recovery[*i]))); }
+        }
+        c.push("D decode".into());
+        ctx.count("loss_pattern", pat);
+        ctx.count("history", "decoder-reset-from-larger");
+        items.push(Item { case: c, originals, given: go });
+    }
+
     let cases: Vec<Case> = items.iter().map(|i| i.case.clone()).collect();
     let runs = ctx.run_cases(&cases);
     for (it, run) in items.iter().zip(runs.iter()) {
